@@ -123,6 +123,19 @@ theorem findFut_append (l : List Fut) (x : Fut) (g : Fid) :
   · have : (x.fid == g) = false := by simpa using h
     simp [h, this]
 
+theorem findFut_append_some (l : List Fut) (x : Fut) (g : Fid) (fu : Fut) :
+    findFut (l ++ [x]) g = some fu ↔ (findFut l g = some fu ∨ (findFut l g = none ∧ x.fid = g ∧ fu = x)) := by
+  rw [findFut_append]
+  cases findFut l g with
+  | none => by_cases h : x.fid = g <;> simp [h, eq_comm]
+  | some a => simp
+
+theorem findFut_id_mem {l : List Fut} {g : Fid} {fu : Fut} (h : findFut l g = some fu) : fu.id ∈ l.map (·.id) :=
+  List.mem_map.mpr ⟨fu, findFut_mem h, rfl⟩
+
+theorem findFut_fid_mem {l : List Fut} {g : Fid} {fu : Fut} (h : findFut l g = some fu) : g ∈ l.map (·.fid) :=
+  List.mem_map.mpr ⟨fu, findFut_mem h, findFut_fid h⟩
+
 theorem findSlot_setSlot (id : Nat) (v : Slot) (l : List (Nat × Slot)) (j : Nat) :
     findSlot (setSlot id v l) j = if j = id then (findSlot l id).map (fun _ => v) else findSlot l j := by
   induction l with
@@ -196,6 +209,13 @@ theorem findSlot_append (l : List (Nat × Slot)) (k : Nat) (v : Slot) (j : Nat) 
   · have : (k == j) = false := by simpa using h
     simp [h, this]
 
+theorem findSlot_append_some (l : List (Nat × Slot)) (k : Nat) (v : Slot) (j : Nat) (x : Slot) :
+    findSlot (l ++ [(k, v)]) j = some x ↔ (findSlot l j = some x ∨ (findSlot l j = none ∧ k = j ∧ x = v)) := by
+  rw [findSlot_append]
+  cases findSlot l j with
+  | none => by_cases h : k = j <;> simp [h, eq_comm]
+  | some a => simp
+
 /-! ## the invariant -/
 
 /-- everything except the receive lock -/
@@ -242,9 +262,17 @@ macro "inv_fields" : tactic =>
   `(tactic| refine ⟨⟨?_, ?_, ?_, ?_, ?_, ?_, ?_, ?_, ?_, ?_, ?_, ?_, ?_⟩, ⟨?_, ?_, ?_, ?_, ?_, ?_⟩⟩)
 
 macro "inv_norm" : tactic =>
-  `(tactic| try simp only [map_fid_setPc, map_id_setPc, findFut_setPc_some, findSlot_setSlot_some, ne_eq, Option.some.injEq,
+  `(tactic| try simp only [map_fid_setPc, map_id_setPc, findFut_setPc_some, findSlot_setSlot_some, findSlot_removeSlot, findFut_append_some, findSlot_append_some, if_true, if_false,
+      List.map_append, List.map_cons, List.map_nil, List.mem_append, List.mem_singleton, ne_eq, Option.some.injEq,
       reduceCtorEq, not_false_eq_true, not_true_eq_false, false_and, and_false, true_and, and_true, false_implies, implies_true,
       forall_const])
+
+set_option hygiene false in
+/-- membership facts about looked-up futures, for the actions that create futures or remove slots -/
+macro "inv_facts" : tactic =>
+  `(tactic| (
+    have hidm : ∀ g fu, findFut s.futs g = some fu → fu.id ∈ s.sent := fun g fu h => c4 ▸ findFut_id_mem h
+    have hfidm : ∀ g fu, findFut s.futs g = some fu → g < s.nextFid := fun g fu h => c3 g (findFut_fid_mem h)))
 
 macro "inv_close" : tactic => `(tactic| (first | assumption | grind | (trace_state; sorry)))
 
@@ -540,5 +568,147 @@ theorem runHolding_inv (fuel : Nat) (s : St) (f : Fid) (id : Nat) (atRead : Bool
       cases s; simp only [St.mk.injEq, true_and, and_true] at ho ⊢; exact ho.symm
     rw [e]
     exact ⟨⟨hold_park (hold_inbox h hi) (hdel m rest hi) hm, ⟨fu, hf, hid⟩, by simp⟩, by simp [hi]⟩
+
+/-! ## every action preserves the invariant -/
+
+theorem inv_fut_reading {s : St} {f : Fid} {fu : Fut} (h : Inv s) (hf : findFut s.futs f = some fu) (hpc : fu.pc = .reading) :
+    s.rxOwner = some f ∧ findSlot s.slots fu.id = some .pending :=
+  h.2.readOk f fu hf (by simp) hpc
+
+theorem poll_inv {s : St} (f : Fid) (h : Inv s) : Inv (s.poll f) := by
+  unfold St.poll
+  rw [St.fut_eq]
+  split
+  · exact h
+  · rename_i fu hf
+    split
+    · exact h
+    · exact h
+    · rename_i hpc
+      split
+      · rename_i ho
+        simp only [Bool.and_eq_true, Option.isNone_iff_eq_none, List.isEmpty_iff] at ho
+        exact runHolding_inv _ _ f fu.id false (hold_acquire h ho.1 hf) ⟨fu, hf, rfl⟩ (by simp) (by simp)
+      · rename_i ho
+        exact inv_enqueue h hf hpc (by simpa using ho)
+    · split
+      · rename_i ho
+        have ho : s.rxOwner = some f := by simpa using ho
+        exact runHolding_inv _ _ f fu.id false (hold_of_inv h ho hf) ⟨fu, hf, rfl⟩ (by simp) (by simp)
+      · exact h
+    · rename_i hpc; exact absurd hpc (h.1.noWaitReq f fu hf).1
+    · rename_i hpc
+      have := inv_fut_reading h hf hpc
+      exact runHolding_inv _ _ f fu.id true (hold_of_inv h this.1 hf) ⟨fu, hf, rfl⟩ (by simp) (fun _ => this.2)
+    · rename_i m hpc; exact absurd hpc ((h.1.noWaitReq f fu hf).2 m)
+
+theorem drop_inv {s : St} (f : Fid) (h : Inv s) : Inv (s.drop f) := by
+  unfold St.drop
+  rw [St.fut_eq]
+  split
+  · exact h
+  · rename_i fu hf
+    split
+    · exact h
+    · exact h
+    · rename_i hpc
+      inv_cases h
+      unfold St.withPc
+      inv_fields <;> inv_norm <;> inv_close
+    · rename_i hpc
+      split
+      · rename_i ho
+        have ho : s.rxOwner = some f := by simpa using ho
+        exact inv_release (hold_of_inv h ho hf) (by simp) (by simp)
+      · rename_i ho
+        have ho : s.rxOwner ≠ some f := by simpa using ho
+        inv_cases h
+        unfold St.withPc
+        inv_fields <;> inv_norm <;> inv_close
+    · rename_i hpc; exact absurd hpc (h.1.noWaitReq f fu hf).1
+    · rename_i hpc
+      have := inv_fut_reading h hf hpc
+      exact inv_release (hold_of_inv h this.1 hf) (by simp) (by simp)
+    · rename_i m hpc; exact absurd hpc ((h.1.noWaitReq f fu hf).2 m)
+
+
+theorem deliver_inv {s : St} (m : Msg) (h : Inv s) : Inv (s.deliver m) := by
+  inv_cases h
+  unfold St.deliver
+  inv_fields <;> inv_norm <;> inv_close
+
+theorem closeGate_inv {s : St} (h : Inv s) : Inv s.closeGate := by
+  inv_cases h
+  inv_facts
+  unfold St.closeGate
+  inv_fields <;> inv_norm <;> inv_close
+
+theorem close_inv {s : St} (h : Inv s) : Inv s.close := by
+  inv_cases h
+  inv_facts
+  unfold St.close
+  dsimp only
+  split
+  · inv_fields <;> inv_norm <;> inv_close
+  · simp only [c1, Bool.false_eq_true, if_false]
+    inv_fields <;> inv_norm <;> inv_close
+
+theorem send_inv {s : St} (b : Bool) (h : Inv s) : Inv (s.send b).1 := by
+  inv_cases h
+  inv_facts
+  unfold St.send
+  split
+  · inv_fields <;> inv_norm <;> inv_close
+  · rename_i hr
+    have hr : s.rpc = none := by simpa using hr
+    dsimp only
+    split
+    · inv_fields <;> inv_norm <;> inv_close
+    · split
+      · inv_fields <;> inv_norm <;> inv_close
+      · split
+        · unfold St.register
+          dsimp only
+          inv_fields <;> inv_norm <;> inv_close
+        · simp only [c1, Bool.false_eq_true, if_false]
+          inv_fields <;> inv_norm <;> inv_close
+
+theorem openGate_inv {s : St} (h : Inv s) : Inv s.openGate.1 := by
+  inv_cases h
+  inv_facts
+  unfold St.openGate
+  dsimp only
+  split
+  · inv_fields <;> inv_norm <;> inv_close
+  · rename_i k hr
+    split
+    · simp only [c1, Bool.false_eq_true, if_false]
+      inv_fields <;> inv_norm <;> inv_close
+    · unfold St.register
+      simp only [c1, Bool.false_eq_true, if_false]
+      inv_fields <;> inv_norm <;> inv_close
+
+
+theorem step_inv {s : St} (a : Act) (h : Inv s) : Inv (s.step a) := by
+  cases a with
+  | send b => exact send_inv b h
+  | gate o => cases o with
+    | true => exact openGate_inv h
+    | false => exact closeGate_inv h
+  | poll f => exact poll_inv f h
+  | deliver m => exact deliver_inv m h
+  | drop f => exact drop_inv f h
+  | close => exact close_inv h
+
+theorem run_inv' {s : St} (acts : List Act) (h : Inv s) : Inv (s.run acts) := by
+  induction acts generalizing s with
+  | nil => exact h
+  | cons a as ih => exact ih (step_inv a h)
+
+/-- the invariant holds in every reachable state of the current code -/
+theorem run_inv (acts : List Act) : Inv (St.run {} acts) := run_inv' acts inv_init
+
+theorem run_append (s : St) (a b : List Act) : s.run (a ++ b) = (s.run a).run b := by
+  simp [St.run, List.foldl_append]
 
 end Session
